@@ -117,7 +117,7 @@ var (
 	ProfC15 = &Profile{
 		Methods:  cat(allEngineMethods, rep(MDAG, 3), rep(MConcurrent, 2)),
 		MinRules: 2, MaxRules: 6, SalSpan: 2,
-		Secs:    map[int]int{SecY: 3, SecLocal: 5, SecReader: 2, SecCall: 1, SecIfKind: 1, SecIfIdx: 1, SecForKind: 1, SecAsgKind: 1, SecShW: 2, SecShR: 2, SecRangeKey: 3},
+		Secs:    map[int]int{SecY: 3, SecLocal: 5, SecReader: 2, SecCall: 1, SecIfKind: 1, SecIfIdx: 1, SecForKind: 1, SecAsgKind: 1, SecShW: 2, SecShR: 2, SecRangeKey: 3, SecLocObj: 3, SecLocObjReader: 1},
 		MaxSecs: 3, Rets: []int{RetNone, RetNestedV},
 		FaultPct: 40, GatePct: 30, RetPct: 50, MinCalls: 4, MaxCalls: 14, UnknownNamePct: 10, BadNMPct: 5,
 	}
@@ -224,6 +224,21 @@ func OracleContainOnly(w *W2Run) []Violation {
 	return out
 }
 
+// c04 adds a pool scenario in which admins rebuild, extend and shrink the rule set while sorted
+// executions are in flight: each execution must still be a complete, ordered, exactly-once run of
+// one installed version (the C07 search decides which).
+func c04(p *Profile) func(plan, sched *simrt.Source, trace bool) *RunOut {
+	base := mixed(p)
+	adm := &W2Opt{Prof: p, Methods: p.Methods, MaxClients: 4, MaxReqs: 4, Admins: 2, MaxMgmt: 3,
+		MgmtKinds: []int{OpFull, OpIncr, OpIncr, OpRemove, OpRemove}, InvalidPct: 10, Oracle: OracleC07}
+	return func(plan, sched *simrt.Source, trace bool) *RunOut {
+		if plan.Intn(6) == 5 {
+			return RunW2(adm, plan, sched, trace)
+		}
+		return base(plan, sched, trace)
+	}
+}
+
 // c09 adds to the mixed engine/pool workload a pool scenario in which management calls run
 // concurrently with faulty requests: nothing may panic, deadlock or hang there either.
 func c09(p *Profile) func(plan, sched *simrt.Source, trace bool) *RunOut {
@@ -248,7 +263,7 @@ var Props = map[string]*PropDef{}
 func register(p *PropDef) { Props[p.ID] = p }
 
 func init() {
-	register(&PropDef{ID: "C04", Run: mixed(ProfC04), Clauses: set(clSpec, clContain)})
+	register(&PropDef{ID: "C04", Run: c04(ProfC04), Clauses: set(clSpec, clContain, clVersions)})
 	register(&PropDef{ID: "C05", Run: mixed(ProfC05), Clauses: set(clSpec, clContain)})
 	register(&PropDef{ID: "C09", Run: c09(ProfC09), Clauses: set(clSpec, clContain)})
 	register(&PropDef{ID: "C11", Run: mixed(ProfC11), Clauses: set(clResult, clContain)})
